@@ -112,6 +112,29 @@ def budget_witness(prog, o):
     return None
 
 
+def _pair_lower_bound(prog, outer, k_):
+    """Lower bound of the range test applied to tuple field `k_` in the closure that tests *both* fields of a pair (the `verify`
+    predicate of the surrogate pair): min over its tests of that field; 0 when not found."""
+    best = None
+    for sib in prog.closures_of(outer):
+        tests = sib.calls_named(r"ops::range::Range::<Idx>::contains$")
+        flds = set()
+        for e in tests:
+            flds |= {x for x in sib.slice_fields(e.args[1]) if x in ("0", "1")}
+        if flds != {"0", "1"}:
+            continue
+        for e in tests:
+            if k_ not in sib.slice_fields(e.args[1]):
+                continue
+            for o_ in sib.slice_back_op(e.args[0], through=lambda ev: False):
+                if o_[0] == "agg" and o_[1][2]["a"].get("def") == "core::ops::range::Range":
+                    kk = core.op_const(o_[1][2]["ops"][0])
+                    if kk is not None and kk.get("int") is not None:
+                        v = int(kk["int"])
+                        best = v if best is None else min(best, v)
+    return best if best is not None else 0
+
+
 def run(rep, tier):
     prog = load()
     rep.not_decided = "independence from keyword case / inter-token whitespace / comments, serde_json round trip of the tree, wall-clock bound"
@@ -336,6 +359,83 @@ def run(rep, tier):
     rep.ob("R15.5", "comment-end-agreement|skip_ws_and_comments~validate_parser_budget", bool(A) and not unknownA and A == B,
            "the lexer ends a line comment at characters %s, the budget pre-scan at %s" % (sorted(A) if not unknownA else "?", sorted(B)),
            (finds[0].where() if finds else lx.file))
+    # ------------------------------------------------------------------ R15.7 checked arithmetic in the parser cannot trip
+    rep.rule("R15.7", "every overflow-checked arithmetic site inside the parser is one of the reviewed forms (depth + 1 under the nesting budget, index + 1 inside "
+                      "a string, the surrogate decoding whose subtrahends are covered by the range test of the same operand); anything else can panic", floor=10)
+    REVIEWED_ARITH = {   # (outer function, operation, constant) -> why it cannot overflow
+        ("skip_ws_and_comments", "AddWithOverflow", "1"): "position of a byte found inside the remaining input + 1 <= its length",
+        ("unicode_escape", "AddWithOverflow", "65536"): "(high_ten << 10) + low_ten < 2^20",
+        ("unicode_escape", "AddWithOverflow", None): "two 10-bit quantities",
+        ("unicode_escape", None, None): "shift by the constant 10",
+        ("negated_number", None, None): "shift by the constant 63 (1u64 << 63)",
+    }
+    for f in prog.fns.values():
+        if f.crate != "anda_kip" or not prog.outer_fn(f).path.startswith(P + "::"):
+            continue
+        oname = prog.outer_fn(f).path.rsplit("::", 1)[1]
+        for b in f.live_blocks():
+            t = f.term(b)
+            if t["k"] != "assert" or "Overflow" not in t.get("msg", ""):
+                continue
+            op, cst, lhs = None, None, None
+            for st in f.stmts(b):
+                if st[0] == "A" and st[2]["k"] == "bin" and "WithOverflow" in st[2]["op"]:
+                    op = st[2]["op"]
+                    cst = (core.op_const(st[2]["b"]) or {}).get("int")
+                    lhs = st[2]["a"]
+            key = "arith|%s|%s|%s" % (oname, op, cst)
+            site = "%s:%s" % (f.file, t.get("ln", f.line))
+            if op == "AddWithOverflow" and cst == "1" and lhs is not None and any(
+                    (o_[0] == "arg" and prog.outer_fn(f).locals[o_[1]] == "usize") or (o_[0] == "upvar" and o_[1] == "depth")
+                    for o_ in f.slice_back_op(lhs, through=lambda ev: False)):
+                rep.ob("R15.7", key, True, "depth + 1: bounded by the nesting budget (R15.2)", site)
+            elif op == "SubWithOverflow" and oname == "unicode_escape":
+                # the subtrahend must be covered by the lower bound of the range test the sibling `verify` closure applies to the same operand
+                fld = sorted(f.slice_fields(lhs))
+                k_ = fld[0] if fld else None
+                starts = []
+                for sib in prog.closures_of(prog.outer_fn(f)):
+                    for e in sib.calls_named(r"ops::range::Range::<Idx>::contains$"):
+                        if k_ is None or k_ not in sib.slice_fields(e.args[1]):
+                            continue
+                        for o_ in sib.slice_back_op(e.args[0], through=lambda ev: False):
+                            if o_[0] == "agg" and o_[1][2]["a"].get("def") == "core::ops::range::Range":
+                                kk = core.op_const(o_[1][2]["ops"][0])
+                                if kk is not None and kk.get("int") is not None:
+                                    starts.append(int(kk["int"]))
+                # the decode closure is reached only through the pair test (the lone-code-unit alternative never reaches it)
+                pair_starts = [s_ for s_ in starts]
+                ok = cst is not None and bool(pair_starts) and any(s_ >= int(cst) for s_ in pair_starts) and \
+                    not any(s_ < int(cst) and s_ != 0xD800 for s_ in pair_starts) and _pair_lower_bound(prog, prog.outer_fn(f), k_) >= int(cst)
+                rep.ob("R15.7", key, ok, "the decoded operand (tuple field %s) has %s subtracted but the range test that admits it starts at %s: "
+                       "an admitted value below the subtrahend underflows and panics" % (k_, cst, _pair_lower_bound(prog, prog.outer_fn(f), k_)), site)
+            elif (oname, op, cst) in REVIEWED_ARITH:
+                rep.ob("R15.7", key, True, REVIEWED_ARITH[(oname, op, cst)], site)
+            else:
+                rep.ob("R15.7", key, False, "overflow-checked arithmetic that is not one of the reviewed forms: it can panic on some input", site)
+
+    # ------------------------------------------------------------------ R15.6 the grammar flavour is threaded, never re-decided below the entry
+    rep.rule("R15.6", "a parser that was given a Flavor passes that same value to every flavour-taking parser it calls (only the statement-level entries choose a "
+                      "constant): otherwise parse_meta / parse_kql / parse_kml accept shapes parse_kip's validator refuses", floor=30)
+    FLV = P + "::common::Flavor"
+    for f in prog.fns.values():
+        if f.crate != "anda_kip":
+            continue
+        o = prog.outer_fn(f)
+        has_own = any(o.locals[l] == FLV for l in range(1, o.argc + 1))
+        if not has_own:
+            continue
+        for e in f.calls():
+            cal = prog.fns.get(e.rid) or prog.fns.get(e.cid)
+            if cal is None:
+                continue
+            for i in range(1, cal.argc + 1):
+                if cal.locals[i] != FLV or i - 1 >= len(e.args):
+                    continue
+                org = f.slice_back_op(e.args[i - 1], through=lambda ev: False)
+                consts = sorted({o_[1][2]["a"].get("v") for o_ in org if o_[0] == "agg"} | {"const" for o_ in org if o_[0] == "const"})
+                rep.ob("R15.6", "flavor-threaded|%s->%s" % (o.path.rsplit("::", 1)[1], cal.path.rsplit("::", 1)[1]), bool(org) and not consts,
+                       "%s was given a Flavor but calls %s with the constant %s" % (o.path.rsplit("::", 1)[1], cal.path.rsplit("::", 1)[1], consts), e.where())
     return rep.finish(EXPLAIN)
 
 
